@@ -221,8 +221,17 @@ class Backend:
 
             target = self.c if self.kind in ("ip", "coap") else {"ip": self.ip, "coap": self.coap}[kind]
             hap = target.hap_type
+            # what the browser may report for this name BEFORE the announcement that counts: the service appearing and going
+            # away again at once (goodbye / PTR expiry inside the library's 0.5 s resolve delay), a removal of something never
+            # seen; the announcement itself arrives as Added or as Updated
+            pre = self.rng.choice([[], [], ["Added", "Removed"], ["Removed"], ["Added", "Removed", "Added", "Removed"]])
+            full0 = f"{self.names[dev_id]}.{hap}"
+            for st in pre:
+                self.esc.call("mdns-browser", target._handle_service, self.azc.zeroconf, hap, full0, getattr(ServiceStateChange, st))
+            if pre:
+                self.esc.ctx.count("mdns_flaps_before_announcement")
             full = add_records(self.azc, hap, self.names[dev_id], 51826, good_txt(dev_id, upper=self.rng.random() < 0.5), ["10.0.0.5", "fe80::1", "fd00::5"])
-            self.esc.call("mdns-browser", target._handle_service, self.azc.zeroconf, hap, full, ServiceStateChange.Added)
+            self.esc.call("mdns-browser", target._handle_service, self.azc.zeroconf, hap, full, self.rng.choice([ServiceStateChange.Added, ServiceStateChange.Added, ServiceStateChange.Updated]))
 
 
 async def run_schedule(ctx, kind, pairing_mode, waiters, adverts, cancel, idx) -> None:
